@@ -16,7 +16,7 @@ if os.path.exists(meta_p) and all(p in json.load(open(meta_p)).get("checks", {})
     print(sid, "already tested, skipped"); sys.exit(0)
 shutil.rmtree(scratch, ignore_errors=True)
 os.makedirs(os.path.dirname(scratch), exist_ok=True)
-r = subprocess.run(["rsync", "-a", "--exclude", ".git", "--exclude", "seeded", "--exclude", "replays", "--exclude", "incremental", "/verif/", scratch + "/"])
+r = subprocess.run(["rsync", "-a", "--exclude", ".git", "--exclude", "seeded", "--exclude", "replays", "--exclude", "incremental", os.environ.get("SEEDPAR_SRC", "/verif") + "/", scratch + "/"])
 assert r.returncode in (0, 24), r.returncode
 for f in ["harness/Cargo.toml", "harness/probes/Cargo.toml", "harness/.cargo/config.toml"]:
     p = os.path.join(scratch, f)
